@@ -1,13 +1,13 @@
 #!/bin/sh
 # usage: tools/seedimport.sh C04   -> copies /tmp/seed-C04/out/<k> to /verif/seeded/C04-<k>/ and runs seedcheck on each
 pid=$1; shift
-for d in /tmp/seed-$pid/out/[0-9]*; do
+src=${SEED_SRC:-/tmp/seed-$pid}; pre=${SEED_PREFIX:-}; for d in $src/out/[0-9]*; do
   k=$(basename $d)
-  dst=/verif/seeded/$pid-$k
+  dst=/verif/seeded/$pid-$pre$k
   mkdir -p $dst
   cp $d/patch.diff $d/demo.py $d/meta.json $dst/ 2>/dev/null
   # demos may import helper modules that live next to them
-  for f in /tmp/seed-$pid/out/*.py; do [ -f "$f" ] && cp $f $dst/; done
+  for f in $src/out/*.py; do [ -f "$f" ] && cp $f $dst/; done
   /verif/tools/seedcheck.py $dst $pid "$@" > $dst/ran.json 2>&1
   python3 - "$dst" <<'PY'
 import json,sys
